@@ -28,3 +28,67 @@ Fixpoint subsets {X} (n : nat) (l : list X) : list (list X) :=
   | S _, [] => []
   | S n', x :: r => map (cons x) (subsets n' r) ++ subsets n r
   end.
+
+(* ------------------------------------------------------------------ *)
+(* Executable specification predicates (C17): the harness feeds them the
+   IMPLEMENTATION's own output; proofs/ResampleP.v shows each is the Prop spec. *)
+
+Fixpoint sorted_ltb (l : list nat) : bool :=
+  match l with
+  | [] => true
+  | a :: r => match r with [] => true | b :: _ => Nat.ltb a b && sorted_ltb r end
+  end.
+
+(* subsample(counts, n) returned the (category, count) pairs r *)
+Definition subsample_okb (counts : list nat) (n : nat) (r : list (nat * nat)) : bool :=
+  sorted_ltb (map fst r)
+  && forallb (fun p => Nat.ltb 0 (snd p) && Nat.ltb (fst p) (length counts)
+                       && Nat.leb (snd p) (nth (fst p) counts 0)) r
+  && Nat.eqb (list_sum (map snd r)) n.
+
+(* a draw: n distinct positions below N *)
+Fixpoint nodupb (l : list nat) : bool :=
+  match l with [] => true | a :: r => negb (existsb (Nat.eqb a) r) && nodupb r end.
+Definition valid_drawb (N n : nat) (S : list nat) : bool :=
+  nodupb S && forallb (fun t => Nat.ltb t N) S && Nat.eqb (length S) n.
+
+(* the canonical draw behind an output of subsample: the first c items of every reported category *)
+Definition offset (counts : list nat) (i : nat) : nat := list_sum (firstn i counts).
+Definition canon_draw (counts : list nat) (r : list (nat * nat)) : list nat :=
+  flat_map (fun p => seq (offset counts (fst p)) (snd p)) r.
+
+(* sub-multiset test: every element of r can be struck off xs, one occurrence each *)
+Section SubMulti.
+Context {X : Type}.
+Variable eqd : forall a b : X, {a = b} + {a <> b}.
+Fixpoint remove_one (a : X) (l : list X) : list X :=
+  match l with [] => [] | b :: r => if eqd a b then r else b :: remove_one a r end.
+Fixpoint submultib (r xs : list X) : bool :=
+  match r with
+  | [] => true
+  | a :: r' => if in_dec eqd a xs then submultib r' (remove_one a xs) else false
+  end.
+(* downsample(xs, maxseqs) returned out *)
+Definition downsample_okb (xs : list X) (maxseqs : option nat) (out : list X) : bool :=
+  match maxseqs with
+  | None => if list_eq_dec eqd out xs then true else false
+  | Some m => if Nat.leb (length xs) m then (if list_eq_dec eqd out xs then true else false)
+              else Nat.eqb (length out) m && submultib out xs
+  end.
+(* a draw reproducing [out] from [xs]: for every output element the first position not used yet *)
+Fixpoint first_unused (a : X) (xs : list X) (used : list nat) (pos : nat) : option nat :=
+  match xs with
+  | [] => None
+  | b :: r => if eqd a b then (if existsb (Nat.eqb pos) used then first_unused a r used (S pos) else Some pos)
+              else first_unused a r used (S pos)
+  end.
+Fixpoint recover_draw (xs out : list X) (used : list nat) : option (list nat) :=
+  match out with
+  | [] => Some []
+  | a :: out' => match first_unused a xs used 0 with
+                 | None => None
+                 | Some p => match recover_draw xs out' (p :: used) with
+                             | None => None | Some dr => Some (p :: dr) end
+                 end
+  end.
+End SubMulti.
